@@ -37,6 +37,7 @@ func (t *tr) mutatedParams(F *fn) map[types.Object]bool {
 			if bigMutated(n, mark) {
 				return true
 			}
+			fmtMutated(n, mark)
 			if se, ok := n.Fun.(*ast.SelectorExpr); ok {
 				if sel, ok := t.info.Selections[se]; ok {
 					if m2, ok := sel.Obj().(*types.Func); ok {
@@ -155,6 +156,9 @@ func (t *tr) emitVar(g *gvar) (err error) {
 	e := &em{F: &fn{name: g.obj.Name()}, names: map[types.Object]string{}, used: map[string]bool{}}
 	val := g.spec.Values[g.idx]
 	ast.Inspect(val, func(n ast.Node) bool {
+		if x, ok := n.(ast.Expr); ok && isByteSliceLit(x) {
+			g.late = true // []byte{…}: fmt layer (fmtstate.go)
+		}
 		if id, ok := n.(*ast.Ident); ok {
 			if v, ok := t.info.Uses[id].(*types.Var); ok && v.Parent() == t.pkg.Scope() {
 				g.deps[v] = true
@@ -276,7 +280,7 @@ func (t *tr) structDefs() []string {
 		for i := 0; i < st.NumFields(); i++ {
 			f := st.Field(i)
 			lt, err := leanTypeE(f.Type())
-			if err != nil || strings.HasPrefix(lt, "Go.Big") {
+			if err != nil || strings.HasPrefix(lt, "Go.Big") || lt == "Go.FmtState" || lt == "Go.ScanState" {
 				return
 			}
 			if fn, ok := f.Type().(*types.Named); ok && fn.Obj().Pkg() == t.pkg {
@@ -357,6 +361,14 @@ func (t *tr) write(dir string) {
 				f += "Float"
 			}
 		}
+		if F.fmtL {
+			// fmt layer (fmtstate.go): <File>Fmt whatever else the function uses (all of them are part of
+			// the text layer; none mentions floats or math/big)
+			f = strings.TrimSuffix(F.file, ".go") + "Fmt"
+			if F.big || F.usesFloat {
+				die("%s: fmt layer function that mentions math/big or floats", F.name)
+			}
+		}
 		return f + ".go"
 	}
 	sort.SliceStable(items, func(i, j int) bool {
@@ -412,6 +424,7 @@ func (t *tr) write(dir string) {
 		}
 		return m
 	}
+	fmtFile := map[string]bool{} // module files of the fmt layer: they import Go/Fmt.lean
 	placeG = func(g *gvar) {
 		if placedG[g] != nil {
 			return
@@ -423,7 +436,12 @@ func (t *tr) write(dir string) {
 				deps = append(deps, placedG[d])
 			}
 		}
-		placedG[g] = put(g.file, deps, g.lines, "")
+		file := g.file
+		if g.late {
+			file = strings.TrimSuffix(g.file, ".go") + "Fmt.go"
+			fmtFile[file] = true
+		}
+		placedG[g] = put(file, deps, g.lines, "")
 	}
 	visiting := map[*fn]bool{}
 	bigFile := map[string]bool{}      // module files of the math/big layer: they import Go/Big.lean
@@ -466,6 +484,9 @@ func (t *tr) write(dir string) {
 		if F.usesFloat {
 			f64File[modFile(F)] = true
 		}
+		if F.fmtL {
+			fmtFile[modFile(F)] = true
+		}
 		placedF[F] = put(modFile(F), deps, F.lines, F.name)
 		visiting[F] = false
 	}
@@ -473,27 +494,35 @@ func (t *tr) write(dir string) {
 	// the proofs are tied to; then the text-layer functions (never called from the first group),
 	// which therefore cannot pull a callee forward inside an existing module.
 	// Third pass: the math/big layer (big.go), for the same reason.
+	// Fifth pass: the fmt layer (fmtstate.go), including the package variables only it can express.
 	for _, it := range items {
-		if it.F != nil && !it.F.text && !it.F.big {
+		if it.F != nil && !it.F.text && !it.F.big && !it.F.fmtL {
 			placeF(it.F)
-		} else if it.G != nil {
+		} else if it.G != nil && !it.G.late {
 			placeG(it.G)
 		}
 	}
 	for _, it := range items {
-		if it.F != nil && it.F.text && !it.F.big {
+		if it.F != nil && it.F.text && !it.F.big && !it.F.fmtL {
 			placeF(it.F)
 		}
 	}
 	for _, it := range items {
-		if it.F != nil && it.F.big && !it.F.bigFloat {
+		if it.F != nil && it.F.big && !it.F.bigFloat && !it.F.fmtL {
 			placeF(it.F)
 		}
 	}
 	// Fourth pass: the big.Float part of the math/big layer (bigfloat.go).
 	for _, it := range items {
-		if it.F != nil && it.F.bigFloat {
+		if it.F != nil && it.F.bigFloat && !it.F.fmtL {
 			placeF(it.F)
+		}
+	}
+	for _, it := range items {
+		if it.F != nil && it.F.fmtL {
+			placeF(it.F)
+		} else if it.G != nil && it.G.late {
+			placeG(it.G)
 		}
 	}
 	var all []string
@@ -508,6 +537,9 @@ func (t *tr) write(dir string) {
 		}
 		if bigFloatFile[m.file] {
 			b.WriteString("import D128.Go.BigFloat\n")
+		}
+		if fmtFile[m.file] {
+			b.WriteString("import D128.Go.Fmt\n")
 		}
 		var ds []string
 		for d := range m.deps {
@@ -544,6 +576,10 @@ func (t *tr) write(dir string) {
 		BigStored       []string `json:"big_args_stored,omitempty"`
 		// big.Float: parameters compared with nil (an Option in Lean; the token "nil" is `none`)
 		BigNilTested []string `json:"big_nil_tested_params,omitempty"`
+		// fmt layer: fmt.State / fmt.ScanState parameters (threaded as values: the Lean function returns
+		// the final state in front of its results), function literals turned into local Lean functions
+		FmtStates   []string `json:"fmt_state_params,omitempty"`
+		FmtClosures int      `json:"fmt_function_literals,omitempty"`
 	}
 	var rep struct {
 		Functions []frep            `json:"functions"`
@@ -560,6 +596,12 @@ func (t *tr) write(dir string) {
 					r.BigNilTested = append(r.BigNilTested, v.Name())
 				}
 			}
+			for _, v := range F.inout {
+				if _, is := fmtIface(v.Type()); is {
+					r.FmtStates = append(r.FmtStates, v.Name())
+				}
+			}
+			r.FmtClosures = len(F.okFuncLit)
 		}
 		if m := placedF[F]; m != nil {
 			r.Module = m.name
